@@ -385,6 +385,13 @@ Ltac refute M := exists M, M; split; [vm_compute; reflexivity|]; split; [apply t
 Lemma refuted_casefold : exists M order, wfM M = true /\ topo M order /\ wf_table_names_unique (gen M order) = false.
 Proof. refute M_casefold. Qed.
 
+(* still open: C06-p, the foreign-key column of a reference named like a relationship of an ancestor *)
+Definition M_inhrelalias : cmodel :=
+  [kls "Tgt" [] [fld "v" SPlain (EB BInt)]; kls "Pa" [] [fld "g_id" SOpt (ECls "Tgt")]; kls "Ch" ["Pa"] [fld "g" SOpt (ECls "Tgt")]].
+Lemma refuted_inhrelalias : exists M order, wfM M = true /\ topo M order /\ refused (gen M order) = false
+  /\ wf_no_inherited_rel_clash (gen M order) = false /\ F_inherited_rel M = false.
+Proof. refute M_inhrelalias. Qed.
+
 (* regression examples.  C06-a (c757abc): the collection of the own class now has two distinct association columns *)
 Lemma fixed_selfcoll : wfM M_selfcoll = true /\ inF M_selfcoll = true /\ wf_assoc_columns (gen M_selfcoll M_selfcoll) = true
   /\ schema_wf (gen M_selfcoll M_selfcoll) = true /\ model_obs (gen M_selfcoll M_selfcoll) = spec_obs M_selfcoll.
